@@ -3,6 +3,7 @@ import ast
 import itertools
 
 from .. import util
+from .. import interp as interp_mod
 from ..interp import Interp, Path, abs_value, show, strip_sites, subterms, NONE
 from .. import slots
 from ..report import Undecided
@@ -606,7 +607,10 @@ def stepwise(chk):
     else:
         loop = loops[0]
         it = Interp(prog, get, unroll=1)
-        outs = it.run()
+        # a defaulted parameter that no call site of the package supplies (`default=None`) reads as its default
+        start = interp_mod.Path()
+        start.env.update(util.unsupplied_defaults(prog, get, private_only=False))
+        outs = it.run(path=start)
         chk.count(len(outs))
         sup = ("sym", get.params()[0])
         returning = set()
@@ -745,9 +749,29 @@ def switch(chk):
         chk.bad(rule, name, "the selection loop breaks at the first match: with sorted thresholds the SMALLEST matching threshold wins instead of the greatest", node=fi.node, stmt="break")
         ok = False
     swcls = fi.cls
-    it = Interp(prog, fi, unroll=2, inline=lambda f, ct: f.cls is swcls and f.name != "regulate")
+    FAIL = interp_mod.REPRESENTATIVES["AnyException"]
+
+    def failing(it_, path, ct, node):
+        # the delegated step may fail: the failure is the chosen controller's answer for this step
+        if ct[0] == "call" and ct[1][0] == "attr" and ct[1][2] == "regulate" and ct[1][1] != SELF:
+            return [("value", NONE), ("raise", FAIL)]
+        return None
+
+    it = Interp(prog, fi, unroll=2, inline=lambda f, ct: f.cls is swcls and f.name != "regulate", call_hook=failing)
     outs = it.run()
     chk.count(len(outs))
+    failed = [o for o in outs if any(e[0] == "raised-at-call" for e in o.path.events) or (o.kind == "raise" and o.value == FAIL)]
+    outs = [o for o in outs if o not in failed]
+    for o in failed:
+        regs = [e for e in o.path.events if e[0] == "call" and e[1][1][0] == "attr" and e[1][1][2] == "regulate" and e[1][1][1] != SELF]
+        if o.kind != "raise" or o.value != FAIL:
+            chk.bad(rule, name, "a failure of the chosen controller's step is swallowed (the step ends by %s after %d delegation(s)): the switch hides that nobody regulated, or lets a second controller act in the same step" % (o.kind, len(regs)), node=fi.node, stmt="failure-swallowed")
+            ok = False
+            break
+        if len(regs) != 1:
+            chk.bad(rule, name, "when the chosen controller's step fails, %d controllers are asked in the same step (required: exactly one)" % len(regs), node=fi.node, stmt="failure-second-delegate")
+            ok = False
+            break
     DEFAULT = ("attr", SELF, slots.attr_from_param(prog, prog.cls(SWITCH), "default"))
     n_checked = 0
     SLAVES_ATTR = None
